@@ -16,13 +16,21 @@
     instance reads the snapshot only; the theorems show that the deletions the
     edits perform keep every snapshot equal to the current definitions.
 
-    IDEAL model: the edits new/deleted reference, deleted cells, new/deleted
-    child space, changed parameter formula and deleted space delete every root
-    ItemSpace that contains a dynamic space built from the edited space (what
-    clear_subs_rootitems does for set_formula / new_cells); the pinned tree does
-    that only for ItemSpaces whose *parent* is the edited space (findings
-    D16 D14 D38).  change of an existing reference is modelled as the code does
-    it (in place, change_dynsub_refs). *)
+    Every edit of a static space [p] that changes its namespace (new / changed /
+    deleted reference, new / deleted cells, new / deleted child space) deletes
+    the ItemSpaces of [p] and every root ItemSpace that contains a dynamic
+    space built from [p] (DynamicBase.on_namespace_change: del_all_itemspaces
+    + clear_subs_rootitems, /repo 76f1b96; set_formula and new_cells call
+    clear_subs_rootitems themselves).  Nothing is updated in place: the change
+    of an existing reference deletes and re-creates it (on_change_ref ->
+    on_del_ref), so the same rule applies and change_dynsub_refs finds no
+    dynamic space left.  A deleted space takes its own ItemSpaces with it
+    (BaseSpaceImpl.on_delete, /repo 9ebab50).
+    IDEAL in two places, where the tree still keeps instances alive: a changed
+    parameter formula deletes only the ItemSpaces whose parent is the edited
+    space (finding D38), and deleting a space without child spaces does not
+    reach the ItemSpaces other spaces built from it through 'base' (finding
+    D39); the model deletes them. *)
 From Coq Require Import List String Ascii ZArith NArith Bool Arith Lia.
 Import ListNotations.
 Open Scope list_scope.
